@@ -296,6 +296,14 @@ type VerifDynMap struct {
 	keys     []string
 	vals     []protoreflect.Value
 	readOnly bool
+	// VerifOrder, when set, is the order in which Range visits the entries
+	// (protobuf-go ranges over a Go map: any order); default insertion order
+	VerifOrder []int
+}
+
+// VerifNewDynMap: a stand-alone map value for the map field fd.
+func VerifNewDynMap(fd protoreflect.FieldDescriptor) *VerifDynMap {
+	return &VerifDynMap{field: fd.(*VerifField)}
 }
 
 func (m *VerifDynMap) Len() int      { return len(m.keys) }
@@ -355,6 +363,14 @@ func (m *VerifDynMap) Mutable(k protoreflect.MapKey) protoreflect.Value {
 	return v
 }
 func (m *VerifDynMap) Range(f func(protoreflect.MapKey, protoreflect.Value) bool) {
+	if len(m.VerifOrder) == len(m.keys) {
+		for _, i := range m.VerifOrder {
+			if !f(protoreflect.ValueOfString(m.keys[i]).MapKey(), m.vals[i]) {
+				return
+			}
+		}
+		return
+	}
 	// insertion order (protobuf-go leaves the order undefined)
 	for i := range m.keys {
 		if !f(protoreflect.ValueOfString(m.keys[i]).MapKey(), m.vals[i]) {
